@@ -322,6 +322,8 @@ def _integrate(ctx, chk, mod, tck_attr):
         ev.apply = apply
         return ev
 
+    tolerance_tests = []
+
     def run_cell(cell, va, vb, depth=0, method=None, argvals=None):
         if depth > 2:
             raise Undecided("unbounded recursion")
@@ -341,6 +343,7 @@ def _integrate(ctx, chk, mod, tck_attr):
 
         ex = CellExec(ev, on_assign_call)
         r = ex.run((f if method is None else method).node.body)
+        tolerance_tests.extend(getattr(ev, "tolerance_tests", []))
         for st, val in ex.asserts:
             if not val:
                 raise Bad("assertion `%s` fails in this cell" % ast.unparse(st.test))
@@ -421,6 +424,12 @@ def _integrate(ctx, chk, mod, tck_attr):
             chk.ob("C14.O3", False, where_of(f, f.node), "%s: integral = %s" % (label, found),
                    "tiling of [a, b]: %s" % req, key="Spline.integrate|class|%s" % klass,
                    why="additivity and antisymmetry of the integral fail on inputs in this ordering")
+    if tolerance_tests:
+        t0 = tolerance_tests[0]
+        chk.ob("C14.O3", False, where_of(f, t0), "a branch of the integral is chosen by a tolerance comparison of its limits: %s" % ast.unparse(t0)[:60],
+               "limits are compared exactly (a == b, a > b): two distinct limits always enclose the area between them",
+               key="Spline.integrate|tolerance-test",
+               why="numpy's isclose holds for distinct limits that are close relative to their magnitude (rtol 1e-5): the integral over a narrow range far from zero comes back as 0, and adjacent thin slices no longer add up")
     chk.count("order_cells", len(cells))
     chk.count("order_cells_ok", n_ok)
     chk.extra["order_cells"] = {"evaluated": len(cells), "agree": n_ok, "disagree": n_bad}
